@@ -204,15 +204,22 @@ func loadReferenceFunctions(path string) (map[string]string, error) {
 		return nil, err
 	}
 	m := map[string]string{}
+	referenceCallers = map[string]string{}
 	for _, n := range l {
-		if i := strings.IndexByte(n, '\t'); i >= 0 {
-			m[n[:i]] = n[i+1:]
-		} else {
-			m[n] = ""
+		parts := strings.Split(n, "\t")
+		m[parts[0]] = ""
+		if len(parts) > 1 {
+			m[parts[0]] = parts[1]
+		}
+		if len(parts) > 2 {
+			referenceCallers[parts[0]] = parts[2]
 		}
 	}
 	return m, nil
 }
+
+// referenceCallers: "rel.declName" -> comma-joined sorted list of the functions that call it statically.
+var referenceCallers map[string]string
 
 func loadKnownFunctions(path string) (map[string]bool, error) {
 	ref, err := loadReferenceFunctions(path)
